@@ -1,5 +1,6 @@
 """Rule fragments used by more than one property (the construct is shared by the properties)."""
-from engine import ru, paths as pa
+import itertools
+from engine import ru, paths as pa, expr
 
 FR = "h3::proto::frame::"
 
@@ -37,3 +38,84 @@ def frame_decoder_memo(ctx, rule, its=None):
                   "bytes are consumed (src.advance) on the %s path without resetting the `expected` bytes-needed memo: the stale "
                   "minimum is applied to the next frame, which then stalls or is reported truncated" % "/".join(vt), "", None, p.describe())
     ctx.floor(rule, "consuming iterations of FrameDecoder::decode", n, 2)
+
+
+def header_payload_cursor(ctx, rule, key_prefix, hdr):
+    """Evaluate the extracted advance/chunk/remaining code of a header-then-payload Buf over all small
+    (len, pos, cnt) states against the reference cursor (no h3 code is run: path conditions and
+    expressions taken from the MIR are folded under a substitution)."""
+    prog = ctx.prog
+    consts = prog.consts
+    adv = ru.need(ctx, rule, key_prefix + "advance")
+    if not adv:
+        return
+    ps = [p for p in ru.all_paths(ctx, rule, adv) if p.end == "return"]
+    bad = []
+    nstate = 0
+    for ln, pos, cnt in itertools.product(range(0, 4), range(0, 4), range(0, 6)):
+        if pos > ln:
+            continue
+        nstate += 1
+
+        def sub(v, ln=ln, pos=pos, cnt=cnt):
+            if v == ("param", 2, ()):
+                return cnt
+            if v[0] == "param" and v[1] == 1 and v[2] in ((".len",), ("len",)):
+                return ln
+            if v[0] == "param" and v[1] == 1 and v[2] in ((".pos",), ("pos",)):
+                return pos
+            return None
+        hits = expr.decide(ps, consts, sub)
+        # paths differ by whether a payload exists: every surviving path must behave like the reference
+        a = min(cnt, ln - pos)
+        for p in hits:
+            st = [e for e in p.stores() if pa.vfmt(e[4]) in ("param_1.pos",)]
+            newpos = expr.fold(st[-1][3], consts, sub) if st else pos
+            if newpos is None and st and st[-1][3][0] == "proj":
+                newpos = expr.fold(st[-1][3], consts, sub)
+            pays = [e for e in p.calls("::advance") if e[3] and e[3][0] != ("param", 1, ())]
+            has_payload_test = [t for t in p.tests if t[3][0] == "discr" and t[2] in ("Some", "None") and "payload" in t[1]]
+            payarg = expr.fold(pays[-1][3][1], consts, sub) if pays else None
+            expects_payload_call = (hdr == "stream_id") or any(t[2] == "Some" for t in has_payload_test)
+            if newpos != pos + a:
+                bad.append(((ln, pos, cnt), "pos' = %s, expected %d" % (newpos, pos + a)))
+            elif expects_payload_call and payarg != cnt - a:
+                bad.append(((ln, pos, cnt), "payload advanced by %s, expected %d" % (payarg, cnt - a)))
+    ctx.check(not bad, rule, adv.key, "advance(cnt): min(cnt, len-pos) in the header, the rest in the payload (all %d small states)" % nstate,
+              "the header/payload cursor deviates from the reference for %d states, e.g. (len,pos,cnt)=%s: %s - bytes of the encoded "
+              "header are re-emitted or skipped when the transport accepts a write in pieces" % (len(bad), bad[0][0] if bad else "", bad[0][1] if bad else ""),
+              "%d states x %d paths" % (nstate, len(ps)))
+    ch = ru.need(ctx, rule, key_prefix + "chunk")
+    if ch:
+        cps = [p for p in ru.all_paths(ctx, rule, ch) if p.end == "return"]
+        badc = []
+        for ln, pos in itertools.product(range(0, 4), range(0, 4)):
+            if pos > ln:
+                continue
+
+            def sub2(v, ln=ln, pos=pos):
+                if v[0] == "param" and v[1] == 1 and v[2] in ((".len",), ("len",)):
+                    return ln
+                if v[0] == "param" and v[1] == 1 and v[2] in ((".pos",), ("pos",)):
+                    return pos
+                return None
+            for p in expr.decide(cps, consts, sub2):
+                idx = [e for e in p.calls("::index") if hdr in pa.vfmt(e[3][0])]
+                if ln - pos > 0:
+                    ok = len(idx) == 1 and idx[0][3][1][0] == "agg" and [expr.fold(x, consts, sub2) for x in idx[0][3][1][3]] == [pos, ln]
+                    if not ok:
+                        badc.append(((ln, pos), "header slice %s" % [pa.vfmt(e[3][1]) for e in idx]))
+                elif idx:
+                    badc.append(((ln, pos), "header slice returned although the header is exhausted"))
+        ctx.check(not badc, rule, ch.key, "chunk(): header[pos..len] while bytes remain, then the payload",
+                  "chunk() deviates: %s" % badc[:2], "")
+    rm = ru.need(ctx, rule, key_prefix + "remaining")
+    if rm:
+        rps = [p for p in ru.all_paths(ctx, rule, rm) if p.end == "return"]
+        okr = bool(rps)
+        for p in rps:
+            r = p.ret
+            while r[0] == "proj":
+                r = r[1]
+            okr = okr and r[0] == "binop" and r[1].startswith("Add") and expr.fold(r[2], consts, lambda v: 5 if (v[0] == "param" and v[2] in ((".len",),)) else 2 if (v[0] == "param" and v[2] in ((".pos",),)) else None) == 3
+        ctx.check(okr, rule, rm.key, "remaining() = (len - pos) + payload", "remaining() = %s" % [pa.vfmt(p.ret)[:80] for p in rps], "")
